@@ -31,6 +31,8 @@ func main() {
 		cmdReplay(os.Args[2:])
 	case "selftest":
 		cmdSelftest(os.Args[2:])
+	case "bindings":
+		cmdBindings(os.Args[2:])
 	default:
 		usage()
 	}
